@@ -408,6 +408,15 @@ def dyn_mc(w, q):
     if not q:
         run_sim(w, "dyn1sim", "MC_dyn1_sim.cfg", 3000, 90, module="MC_dyn.tla", workers=8, timeout=900)
         run_sim(w, "dyn2sim", "MC_dyn2_sim.cfg", 3000, 90, module="MC_dyn.tla", workers=8, timeout=900)
+        # sensitivity control: with an activation delay of 2 rounds (shorter than fame
+        # takes) and two leaves in a four-validator network the design does diverge
+        r = w.model_check("dynL", "MC_dynL.cfg", module="MC_dyn.tla", workers=4, timeout=600,
+                          extra=("-simulate", "num=2000", "-depth", "260", "-seed", "5"))
+        w.mc.pop()
+        w.notes.append("design-level sensitivity control MC_dynL.cfg (ActivationDelay = 2, two leaves, N = 4): %s" % (
+            "TLC finds a divergence (%s), as expected: safety needs the validator set of a round to be known before the round starts; "
+            "trace validation monitors exactly that on the real code (Inv_C10_SetKnownBeforeRoundStarts)" % r.get("violated")
+            if r.get("violated") else "no divergence found in this run (simulation; not a claim)"))
 
 
 def plan_C10(w):
